@@ -39,6 +39,10 @@ func runLBAcct(x *X) {
 	}
 	s := x.StartMicro()
 	net := newStubNet(x)
+	if c.Intn(4, "backends-send-early-hints") == 0 {
+		net.interimAll = []int{103} // the final status is what counts, for health and for the counters
+		x.Probe("interim-before-final-status")
+	}
 	for i := 0; i < nb; i++ {
 		name := fmt.Sprintf("b%d", i)
 		host := x.BackendHost(4, i+1)
@@ -50,6 +54,7 @@ func runLBAcct(x *X) {
 		// a wedged proxy cannot account for anything; the root cause is C03/C08's business
 		x.Violate("C03", "C03/"+e.Kind+"{lbacct}", "%s", e.Error())
 		_ = deadlockFP
+		x.Blocked(e, "lbacct")
 	}
 	var h *lbHarness
 	x.Do("setup", func() { h, _ = newLBHarness(x, net, o) }, onErr)
@@ -60,7 +65,9 @@ func runLBAcct(x *X) {
 	x.Sample["config"] = fmt.Sprintf("strategy=%s backends=%d passive=%v/%d window=%ds limiter=%v breaker=%v", strategy, nb, passive, threshold, window, o.limiter, o.breaker)
 	x.Logf("lbacct %s", x.Sample["config"])
 
-	classes := []string{"ok", "s404", "s500", "unreach", "abort", "client-gone", "s204"}
+	// (statuses Helios also produces itself -- 429, 503, 401 -- when they come from the backend are
+	// proxied answers: counted once, in the class of their status)
+	classes := []string{"ok", "s404", "s500", "unreach", "abort", "client-gone", "s204", "s429", "s503", "s401"}
 	var steps []string
 	clientGone := func(spec reqSpec) {
 		// the client disconnects while the backend is still working: the request
@@ -100,7 +107,7 @@ func runLBAcct(x *X) {
 	}
 	countFaults := func(class string) {
 		switch class {
-		case "s500":
+		case "s500", "s503":
 			x.Fault("backend-5xx")
 		case "unreach":
 			x.Fault("backend-unreachable")
